@@ -101,6 +101,7 @@ def _scenario(spec, rnd, d, logdir, res):
         calls[(self.process.pid, self.name)] += 1
         return orig_call(self, fd, events)
     redirector.Redirector.Handler.__call__ = counted
+    fd0_free = spec['idx'] % 3 == 1
     sink = collections.defaultdict(list)
     late = collections.Counter()
     nwriters = rnd.randint(1, 6)
@@ -134,6 +135,17 @@ def _scenario(spec, rnd, d, logdir, res):
         'log': logdir, 'out': {'stdout': [[7, 5]] * 5, 'stderr': eo_script}})], numprocesses=1,
         stderr_stream={'stream': Collector('stderr', sink)}, copy_env=True, graceful_timeout=1, loop=loop))
     scripts.append({'stdout': None, 'stderr': eo_script})
+    # a writer that is started later, right after descriptor 0 became free in the daemon (a daemon whose standard
+    # input was closed): its pipe gets descriptor number 0
+    late_script = {ch: [[rnd.choice(SIZES[:6]), rnd.choice([0, 1, 5])] for _ in range(50)] for ch in ('stdout', 'stderr')}
+    late_w = None
+    if fd0_free:
+        late_w = Watcher('wr_late', live.PY, args=['-S', live.WORKER, json.dumps({
+            'log': logdir, 'out': {'stdout': late_script['stdout'], 'stderr': late_script['stderr']}})], numprocesses=1,
+            stdout_stream={'stream': Collector('stdout', sink)}, stderr_stream={'stream': Collector('stderr', sink)},
+            copy_env=True, graceful_timeout=1, autostart=False, loop=loop)
+        watchers.append(late_w)
+        scripts.append({'stdout': late_script['stdout'], 'stderr': late_script['stderr'], 'name': 'wr_late'})
     # the sibling's workers either obey the stop signal or sit out the grace period (SIGKILL escalation)
     sib_stubborn = spec['idx'] % 2 == 0
     sib = Watcher('sib', live.PY, args=['-S', live.WORKER, json.dumps(dict({'log': logdir, 'out': {
@@ -205,6 +217,22 @@ def _scenario(spec, rnd, d, logdir, res):
         beat()
         th.start()
         yield arb.start()
+        if late_w is not None:
+            try:
+                os.close(0)
+                res.obs['scenarios_with_descriptor_0_free'] += 1
+            except OSError:
+                pass
+            for attempt in range(100):
+                try:
+                    yield late_w.start()
+                    break
+                except Exception as e:
+                    if type(e).__name__ != 'ConflictError':
+                        raise
+                    yield gen.sleep(0.02)
+            info['late_fds'] = sorted(fd for fd in arb.get_watcher('wr_late').stream_redirector.pipes) \
+                if arb.get_watcher('wr_late').stream_redirector else None
         writers = {}
         for w in watchers:
             for p in w.processes.values():
@@ -296,7 +324,7 @@ def _scenario(spec, rnd, d, logdir, res):
     writers = info.get('writers', {})
     # ---- compare byte for byte
     for i, sc in enumerate(scripts):
-        name = 'wr%d' % i if sc['stdout'] is not None else 'wr_eo'
+        name = sc.get('name') or ('wr%d' % i if sc['stdout'] is not None else 'wr_eo')
         pid = writers.get(name)
         if pid is None:
             continue
